@@ -178,6 +178,10 @@ async fn feed(pipeline: &Pipeline<LogId, Extensions, Topic>, store: &SqliteStore
 
 thread_local! {
     static RT: tokio::runtime::Runtime = tokio::runtime::Builder::new_current_thread().enable_all().build().expect("rt");
+    /// One store + pipeline per worker thread, emptied before every execution: a `Pipeline` owns a
+    /// thread with its own runtime that never ends (processor streams never terminate), so a fresh
+    /// pipeline per execution exhausts file descriptors after some thousand executions.
+    static WORLD: std::cell::RefCell<Option<std::mem::ManuallyDrop<(SqliteStore, Pipeline<LogId, Extensions, Topic>)>>> = const { std::cell::RefCell::new(None) };
 }
 
 fn execute(ch: &Chooser, w: &World, depth: usize, per_input_upto: usize) -> Result<Vec<StepObs>, String> {
@@ -187,8 +191,30 @@ fn execute(ch: &Chooser, w: &World, depth: usize, per_input_upto: usize) -> Resu
 
 fn execute_on(ch: &Chooser, w: &World, depth: usize, per_input_upto: usize, rt: &tokio::runtime::Runtime) -> Result<Vec<StepObs>, String> {
     rt.block_on(async {
-        let store = SqliteStore::temporary().await;
-        let pipeline = Pipeline::<LogId, Extensions, Topic>::new(store.clone(), TaskTracker::new());
+        let cached = WORLD.with(|c| c.borrow_mut().take());
+        // (never dropped at thread exit: sqlx must not be torn down outside a runtime)
+        let (store, pipeline) = match cached.map(std::mem::ManuallyDrop::into_inner) {
+            Some(sp) => sp,
+            None => {
+                let store = SqliteStore::temporary().await;
+                let pipeline = Pipeline::<LogId, Extensions, Topic>::new(store.clone(), TaskTracker::new());
+                (store, pipeline)
+            }
+        };
+        for t in ["operations_v1", "topics_v1", "cursors_v1"] {
+            sqlx::query(&format!("DELETE FROM {t}")).execute(store.pool()).await.map_err(|e| format!("cannot empty {t}: {e}"))?;
+        }
+        let r = execute_in(ch, w, depth, per_input_upto, &store, &pipeline).await;
+        if r.is_ok() {
+            // only a world that went through an execution without trouble is used again
+            WORLD.with(|c| *c.borrow_mut() = Some(std::mem::ManuallyDrop::new((store, pipeline))));
+        }
+        r
+    })
+}
+
+async fn execute_in(ch: &Chooser, w: &World, depth: usize, per_input_upto: usize, store: &SqliteStore, pipeline: &Pipeline<LogId, Extensions, Topic>) -> Result<Vec<StepObs>, String> {
+    {
         for i in &w.setup {
             if feed(&pipeline, &store, i, 0).await? {
                 return Err(format!("setup operation {} failed", i.name));
@@ -216,7 +242,7 @@ fn execute_on(ch: &Chooser, w: &World, depth: usize, per_input_upto: usize, rt: 
             out.push(StepObs { own_log_tag, input: format!("{}@{}", i.name, ["import", "sync", "replay"][source_kind]), failed, before, after, author, topic_tag, seq: i.op.header.seq_num, id8: i.op.hash.to_hex()[..8].to_string(), prune: *i.op.header.extensions.prune_flag() });
         }
         Ok(out)
-    })
+    }
 }
 
 pub fn run(mut rep: Report) -> i32 {
